@@ -161,6 +161,11 @@ def judge_c20(case):
             reach.probe("fault-planned-but-not-reached")
             continue
         f = faults[-1]
+        if f["fault"] == "compile":
+            # raised while optyx compiles (before the solver, or lazily inside a callback): only the
+            # global-state and recovery oracles apply
+            reach.probe("compile-fault-fired")
+            continue
         obs = rec.get("obs") or {}
         evs = rec.get("events") or []
         left = bool(evs) and evs[-1].get("raised") == f["exc"]
@@ -274,6 +279,8 @@ def judge_c18(case):
             if not _split_names(inside, D):
                 findings.append(_finding("C18", "warning-names", rec, f"warning lists [{inside}] expected {D}"))
                 break
+        if rec.get("planned"):
+            continue  # a scripted peer / fault shaped this solve: its relaxed twin has none
         ref = refs.get(rec["ref_relaxed"])
         c = O.compare_with_ref(rec, ref, ("events", "obs"))
         if c:
